@@ -63,6 +63,10 @@ PROBES = {
         rejected("attr", "Debug, Deref", "struct X { #[debug(ignore)] a: u8, b: u8 }", True),
         matches("attr", "Debug, Add", "enum X { #[debug(bound(..))] A(#[debug(ignore)] u8) }", NO_HELPER, False, "item0"),
         matches("attr", "Debug, Add", "enum X { #[debug(bound(..))] A(#[debug(ignore)] u8) }", r"^enum X \{ A \(u8\) ,? ?\}", True, "item0"),
+        # helper-named attributes of traits that are not being derived belong to somebody else (std's #[default], another macro's #[debug]): kept also when the derivation fails
+        matches("attr", "Clone, Add", "enum X { #[default] A, B }", r"^enum X \{ # \[default\] A , B ,? ?\}", True, "item0"),
+        matches("attr", "Deref", "struct X { #[debug(ignore)] a: u8, #[ord(key = $)] b: u8 }", r"^struct X \{ # \[debug \(ignore\)\] a : u8 , # \[ord \(key = \$\)\] b : u8 ,? ?\}", True, "item0"),
+        matches("attr", "Clone, Deref", "#[default(X { a: 1, b: 2 })] #[doc = \"k0\"] struct X { a: u8, #[hash(ignore)] b: u8 }", r"default \(X.*k0.*hash \(ignore\)", True, "item0"),
     ],
     "C14.strip-on-core-error": [
         # the whole derivation fails (a helper attribute that does not parse): the item still comes back without derive_ex's attributes, at every level
